@@ -74,9 +74,12 @@ Theorem C01_source_AppendKey : forall dst key, dst <> [] -> len_ok dst -> bytes_
   JsonSrc.AppendKey dst key = Ok (dst ++ (if last_byte dst =? 0x7B then [] else [0x2C]) ++ json_string key ++ [0x3A]).
 Proof. exact source_AppendKey. Qed.
 
-(* all 37 translated functions of internal/json (strings, keys, hex, object splice, markers, booleans, every
-   integer width and its slice form, times in the five formats) return exactly what the hand-written model
-   computes - so every theorem about the model's primitives is a theorem about this code *)
+(* the translated functions of internal/json (strings, keys, hex, object splice, markers, booleans, every
+   integer width and its slice form, times in the five formats, and the scalar float encoders: NaN/Inf strings,
+   the 'e'/'f' choice against the float32 / float64 thresholds, the exponent clean-up that rewrites dst in place)
+   return exactly what the hand-written model computes - so every theorem about the model's primitives is a
+   theorem about this code.  For the floats strconv.AppendFloat is an oracle [fo] assumed to return the two texts
+   the model carries, and float64(float32) is the exact bit-level conversion of Base/FloatBits.v *)
 Theorem C01_source_refines_model : json_source_refinement.
 Proof. exact json_source_refines_model. Qed.
 
